@@ -10,12 +10,15 @@ import itertools
 import os
 import random
 
-from vlib import e2e, engine, gen, netsynth as ns, outparse, runner, scene, tcpcap
+from vlib import corpus, e2e, engine, gen, netsynth as ns, outparse, runner, scene, tcpcap
 
 
 def build(tier, seed):
     thorough = tier == "thorough"
     cases = [{"id": f"scene-{i}", "i": i} for i in range(260 if thorough else 40)]
+    real = corpus.tls_captures() + corpus.quic_captures(big=False)
+    for name, path, _, _ in (real if thorough else real[2::6]):         # the repository's real captures with their real key logs
+        cases.append({"id": f"real-{name}", "real": name})
 
     def evalfn(case):
         return eval_case(case, random.Random(engine.subseed("C09", seed, case["id"])), thorough)
@@ -109,14 +112,28 @@ def deliveries(rng, lines, quic, thorough):
 
 
 def eval_case(case, rng, thorough):
-    n = rng.choice([1, 1, 2, 3])
-    flows = [gen.random_quic_flow(rng, i, napp=4) if rng.random() < 0.35 else gen.random_tls_flow(rng, i, nmax=5, min_records=1) for i in range(n)]
-    quic = any(f.kind == "quic" for f in flows)
-    items = scene.stamp(scene.merge(flows, rng, rng.choice(["random", "concat"])), rng)
-    lines = [l for f in flows for l in f.keylog]
-    pk = [("pkt", it.ts, it.frame) for it in items]
-    base, files, argv = e2e.run_capture(ns.pcapng(pk), ("\n".join(lines) + "\n").encode())
-    out = {"cls": ["quic" if quic else "tls", n], "tags": [], "sample": {"case": case["id"], "flows": [f.label for f in flows], "key_lines": len(lines)}}
+    xopts = []
+    if case.get("real"):
+        name, path, keytext, xopts = next(c for c in corpus.tls_captures() + corpus.quic_captures(big=False) + corpus.quic_captures(big=True) if c[0] == case["real"])
+        quic = bool(xopts)
+        pk = [it for it in corpus.load(path) if it[0] == "pkt"]
+        lines = [l for l in keytext.decode("ascii", "replace").replace("\r", "").split("\n") if len(l.split(" ")) == 3 and not l.startswith("#")]
+        if len(lines) > 40:         # keep the connection's own lines and a sample of the others (the deliveries are run ~30 times)
+            rnds = corpus.client_randoms(pk)
+            own = [l for l in lines if l.split(" ")[1].lower() in rnds]
+            if own:
+                lines = own + rng.sample([l for l in lines if l not in own], min(20, len(lines) - len(own)))
+        labels, n = [case["real"]], 1
+    else:
+        n = rng.choice([1, 1, 2, 3])
+        flows = [gen.random_quic_flow(rng, i, napp=4) if rng.random() < 0.35 else gen.random_tls_flow(rng, i, nmax=5, min_records=1) for i in range(n)]
+        quic = any(f.kind == "quic" for f in flows)
+        items = scene.stamp(scene.merge(flows, rng, rng.choice(["random", "concat"])), rng)
+        lines = [l for f in flows for l in f.keylog]
+        pk = [("pkt", it.ts, it.frame) for it in items]
+        labels = [f.label for f in flows]
+    base, files, argv = e2e.run_capture(ns.pcapng(pk), ("\n".join(lines) + "\n").encode(), xopts)
+    out = {"cls": ["real" if case.get("real") else "quic" if quic else "tls", n], "tags": [], "sample": {"case": case["id"], "flows": labels, "key_lines": len(lines)}}
     fail = e2e.run_failed(base)
     if fail:
         return dict(out, v="inconclusive" if fail.startswith("INCONCLUSIVE") else "violated", msg="baseline delivery: " + fail, files=files)
@@ -143,7 +160,7 @@ def eval_case(case, rng, thorough):
         if cwd == "scratch":
             cwd = None
         units += 1
-        r, f2, a2 = e2e.run_capture(cap, keyfile, no_keylog_opt=opts.get("no_s", False) or keyfile is None, cwd=cwd)
+        r, f2, a2 = e2e.run_capture(cap, keyfile, xopts, no_keylog_opt=opts.get("no_s", False) or keyfile is None, cwd=cwd)
         kind = label.rstrip("0123456789-")
         fail = e2e.run_failed(r)
         if fail:
@@ -162,5 +179,5 @@ def eval_case(case, rng, thorough):
     out.update(units=units, classes=[list(c) + out["cls"] for c in sorted(classes)], nontrivial=nontrivial and units > 0, mon={"deliveries_compared": units})
     out["tags"] = sorted({f"delivery:{c[0]}" for c in classes})
     if bad:
-        return dict(out, v="violated", msg=f"{[f.label for f in flows]}: {len(bad)} of {units} deliveries; first: {bad[0][0]}", files=bad[0][1])
+        return dict(out, v="violated", msg=f"{labels}: {len(bad)} of {units} deliveries; first: {bad[0][0]}", files=bad[0][1])
     return dict(out, v="held")
